@@ -31,6 +31,7 @@ type FaultCase struct {
 	To   int         `json:"to"`   // recipient for point-to-point types (0 = every recipient gets the same altered content)
 	Spec tamper.Spec `json:"spec"`
 	// whole-message attacks / deviating inputs
+	Replace     bool  `json:"replace,omitempty"`      // the first copy of the message is delivered unaltered, later copies carry the alteration (the sender replaces a message the recipient already holds)
 	Mirror      int   `json:"mirror,omitempty"`       // dev sends party Mirror's message of type Type as its own
 	WrongSecret bool  `json:"wrong_secret,omitempty"` // dev runs on Xi+1
 	DupParams   int   `json:"dup_params,omitempty"`   // dev brings the same pre-parameters as party DupParams (ECDSA keygen / resharing-new)
@@ -109,6 +110,9 @@ func (fc FaultCase) ID() string {
 	craft := ""
 	if fc.Craft != nil {
 		craft = fc.Craft.Kind + ":" + fc.Craft.DType
+	}
+	if fc.Replace {
+		craft += "|replace"
 	}
 	return fmt.Sprintf("%s|n%d.%d.%d|dev%d|%s>%d|%s|m%d|ws%v|dp%d|aa%v|%s|%d|%s|from%d|%s", fc.Sc.Proto, fc.Sc.N, fc.Sc.NewN, fc.Sc.T, fc.Dev, fc.Type, fc.To, fc.Spec,
 		fc.Mirror, fc.WrongSecret, fc.DupParams, fc.AfterAbort, fc.Sc.Strategy, fc.Sc.Seed, shortHex(fc.RawWire), fc.AsFrom, craft)
@@ -256,6 +260,16 @@ func execFault(fc FaultCase) (*FaultOutcome, error) {
 		}
 		if fc.To != 0 && it.To.G != fc.To {
 			return nil
+		}
+		if fc.Replace {
+			if it.Count == 0 {
+				return nil // the honest-looking first copy
+			}
+			// the replacement only counts as handed over for consumption if the recipient has not yet finished the
+			// round that awaits this type (afterwards the stored copy may legitimately never be read again)
+			if r := s.Round(it.To); r > it.Round || r < 0 {
+				return nil
+			}
 		}
 		key := fmt.Sprintf("%d", it.To.G)
 		if it.Msg.Kind == "B" {
